@@ -15,9 +15,9 @@ example : getDefaultCategory poscDb (Sym.ofString "m") = .ok (some (Sym.ofString
 example : getDefaultCategory poscDb (Sym.ofString "1000ft3/d") = getDefaultCategory poscDb (Sym.ofString "Mcf/d") := by
   decide +kernel
 example : newQuantity poscDb (.str (Sym.ofString "length") none) (Sym.ofString "m")
-    = .ok ⟨Sym.ofString "length", Sym.ofString "m"⟩ := by decide +kernel
+    = .ok (Qty.simple (Sym.ofString "length") (Sym.ofString "m")) := by decide +kernel
 example : construct poscDb .scalar (.num (5/2)) (.str (Sym.ofString "m")) .none
-    = .ok ⟨⟨Sym.ofString "length", Sym.ofString "m"⟩, .scalar (5/2)⟩ := by decide +kernel
+    = .ok ⟨(Qty.simple (Sym.ofString "length") (Sym.ofString "m")), .scalar (5/2)⟩ := by decide +kernel
 example : construct poscDb .scalar (.str (Sym.ofString "length")) (.num (5/2)) (.str (Sym.ofString "m") none)
     = construct poscDb .scalar (.seq .tuple [.num (5/2) false, .str (Sym.ofString "m") none]) .none .none := by
   decide +kernel
@@ -30,31 +30,31 @@ example : construct poscDb .scalar (.num 1) (.str (Sym.ofString "s")) (.str (Sym
 example : construct poscDb (.fixed 1) (.seq .list [.num 1 true]) (.str (Sym.ofString "m")) .none = .error .value := by
   decide +kernel
 example : construct poscDb (.fixed 2) (.seq .list [.num 1 true, .num 2 true]) (.str (Sym.ofString "m")) .none
-    = createWithQuantity poscDb (.fixed 0) ⟨Sym.ofString "length", Sym.ofString "m"⟩
+    = createWithQuantity poscDb (.fixed 0) (Qty.simple (Sym.ofString "length") (Sym.ofString "m"))
         (.seq .list [.num 1 true, .num 2 true]) true none := by decide +kernel
 example : construct poscDb (.fixed 3) (.seq .list [.num 1 true, .num 2 true]) (.str (Sym.ofString "m")) .none
     = .error .value := by decide +kernel
 example : parseLit (quoteLit (Sym.bytes (Sym.ofString "m'"))) = none := by decide +kernel
-example : reprBack poscDb ⟨⟨Sym.ofString "length", Sym.ofString "m"⟩, .scalar (5/2)⟩
-    = some (.ok ⟨⟨Sym.ofString "length", Sym.ofString "m"⟩, .scalar (5/2)⟩) := by decide +kernel
-example : Obj.eq ⟨⟨1, 2⟩, .arr (.seq .list [.num 2 true])⟩ ⟨⟨1, 2⟩, .arr (.seq .tuple [.num 2 false])⟩ = .ok true := by
+example : reprBack poscDb ⟨(Qty.simple (Sym.ofString "length") (Sym.ofString "m")), .scalar (5/2)⟩
+    = some (.ok ⟨(Qty.simple (Sym.ofString "length") (Sym.ofString "m")), .scalar (5/2)⟩) := by decide +kernel
+example : Obj.eq ⟨(Qty.simple 1 2), .arr (.seq .list [.num 2 true])⟩ ⟨(Qty.simple 1 2), .arr (.seq .tuple [.num 2 false])⟩ = .ok true := by
   decide
-example : Obj.eq ⟨⟨1, 2⟩, .arr (.seq .list [.num 2 true, .num 3 true])⟩
-    ⟨⟨1, 2⟩, .fixed (.seq .list [.num 2 true, .num 3 true]) 2⟩ = .ok false := by decide
-example : Obj.eq ⟨⟨1, 2⟩, .arr (.num 5)⟩ ⟨⟨1, 2⟩, .arr (.num 5)⟩ = .error .type := by decide
+example : Obj.eq ⟨(Qty.simple 1 2), .arr (.seq .list [.num 2 true, .num 3 true])⟩
+    ⟨(Qty.simple 1 2), .fixed (.seq .list [.num 2 true, .num 3 true]) 2⟩ = .ok false := by decide
+example : Obj.eq ⟨(Qty.simple 1 2), .arr (.num 5)⟩ ⟨(Qty.simple 1 2), .arr (.num 5)⟩ = .error .type := by decide
 
 -- an int that no double holds: every form stores the float image, and the int itself is != to it
 example : construct poscDb .scalar (.atom (.big (2^53 + 1) (2^53))) (.str (Sym.ofString "m")) .none
-    = .ok ⟨⟨Sym.ofString "length", Sym.ofString "m"⟩, .scalar (2^53)⟩ := by decide +kernel
-example : createWithQuantity poscDb .scalar ⟨Sym.ofString "length", Sym.ofString "m"⟩ (.atom (.big (2^53 + 1) (2^53))) false none
+    = .ok ⟨(Qty.simple (Sym.ofString "length") (Sym.ofString "m")), .scalar (2^53)⟩ := by decide +kernel
+example : createWithQuantity poscDb .scalar (Qty.simple (Sym.ofString "length") (Sym.ofString "m")) (.atom (.big (2^53 + 1) (2^53))) false none
     = construct poscDb .scalar (.atom (.big (2^53 + 1) (2^53))) (.str (Sym.ofString "m")) .none := by decide +kernel
 example : atomEq (.big (2^53 + 1) (2^53)) (.num (2^53) false) = false := by decide +kernel
 example : atomEq (.bool true) (.num 1 false) = true := by decide +kernel
 example : construct poscDb .fraction (.atom (.bool true)) (.str (Sym.ofString "m")) .none
-    = .ok ⟨⟨Sym.ofString "length", Sym.ofString "m"⟩, .fraction 1 0⟩ := by decide +kernel
+    = .ok ⟨(Qty.simple (Sym.ofString "length") (Sym.ofString "m")), .fraction 1 0⟩ := by decide +kernel
 
 -- a list of 2 tuples of size 3: the FixedArray dimension is 2 in every form, CreateWithQuantity included
-example : createWithQuantity poscDb (.fixed 0) ⟨Sym.ofString "length", Sym.ofString "m"⟩
+example : createWithQuantity poscDb (.fixed 0) (Qty.simple (Sym.ofString "length") (Sym.ofString "m"))
       (.rows .list [[.num 1 true, .num 2 true, .num 3 true], [.num 4 true, .num 5 true, .num 6 true]]) false none
     = construct poscDb (.fixed 2)
       (.rows .list [[.num 1 true, .num 2 true, .num 3 true], [.num 4 true, .num 5 true, .num 6 true]])
@@ -65,7 +65,7 @@ example : construct poscDb (.fixed 3) (.rows .list [[.num 1 true, .num 2 true, .
       (.str (Sym.ofString "m")) .none = .error .value := by decide +kernel
 -- `[("m", 1)]` as a unit is "a simple case" and stands for `m`
 example : obtainQuantity poscDb (.rows .list [[.str (Sym.ofString "m") none, .num 1 true]]) (.str (Sym.ofString "length") none)
-    = .ok ⟨Sym.ofString "length", Sym.ofString "m"⟩ := by decide +kernel
+    = .ok (Qty.simple (Sym.ofString "length") (Sym.ofString "m")) := by decide +kernel
 example : elemsEq [.row [.num 1 true, .num 2 false]] [.row [.num 1 false, .num 2 true]] = true := by decide +kernel
 example : elemsEq [.row [.num 1 true]] [.atom (.num 1 true)] = false := by decide +kernel
 
